@@ -104,7 +104,7 @@ def cli_case(args):
         ws.write(w, 'patches/p1.patch', patch)
         opts = ' -p%d' % job['strip'] + (' -R' if job['rev'] else '')
         ws.write(w, 'series', ('p1.patch' + opts + '\n').encode())
-        rc, so, se = ws.push(w, ['-a', '-q', '--threads', threads], via_d=(job['id'] // 3) % 2 == 0)
+        rc, so, se = ws.push(w, ['-a', '-q', '--threads', threads] + (['--mmap'] if (job['id'] // 2) % 2 else []), via_d=(job['id'] // 3) % 2 == 0)
         snap = ws.snapshot(w)
         got = snap.get(name, (None,))[0]
         allowed = [None if x is None else bytes.fromhex(x) for x in job['allowed']]
